@@ -1,4 +1,6 @@
 CHECK = {'rule': 'rapid-generated histories on a scope tree that starts as one root scope (goatcore app/scope): NewChild with shared or isolated context '
+         '[isolated contexts built from the parent scope or, 60 %, from the parent\'s bare context object as production code nests them, incl. '
+         'isolated-below-isolated chains whose middle level is stopped/killed/failed while the leaf is alive] '
          '(depth <= 3, <= 9 scopes), listener registration for any of the 11 events on any open scope (35 % return an error), AddTasks/DoneTask '
          '(balanced by construction), AppendError, Kill, Stop, Close of any scope (asynchronous), a second Close (first finished or still waiting), '
          'and batches of 2-4 DoneTask/Close released together from separate goroutines; every action runs in a fresh goroutine, an epilogue '
@@ -25,7 +27,9 @@ CHECK = {'rule': 'rapid-generated histories on a scope tree that starts as one r
                               'error-in-shared-child', 'error-in-isolated-context', 'parent-stop-reached-isolated-child',
                               'before-close-listener-error', 'listener-error-during-commit', 'listener-error-during-rollback',
                               'second-close-after-first-finished', 'second-close-while-first-waits',
-                              'concurrent-batch', 'timed-still-blocked-probe']},
+                              'concurrent-batch', 'timed-still-blocked-probe',
+                              'isolated-chain-from-bare-isolated-context', 'intermediate-isolated-ended-with-live-bare-leaf',
+                              'stop-on-intermediate-isolated', 'kill-on-intermediate-isolated', 'err-on-intermediate-isolated']},
  'tiers': {'quick': [{'test': '^TestProp$', 'checks': 3000, 'shards': 6, 'timeout': 240, 'shrinktime': '2s'}],
            'thorough': [{'test': '^TestProp$', 'checks': 50000, 'shards': 16, 'timeout': 1500, 'shrinktime': '5s'}]}}
 
